@@ -94,6 +94,9 @@ fn mro_history(ctx: &mut Ctx, ops: &[Op], key_seed: u64) -> Result<(), (usize, F
     let world = World::new();
     let mut sut = Sut::create(key_seed, world.clone(), CacheMode::None).map_err(|f| (0, f))?;
     sut.cmp_mask = CMP_WRITABLE | CMP_HAS;
+    // every second reopen is a plain build() on the existing storage: the stored public key and
+    // writability must be recovered there too
+    sut.plain_reopen_every = 2;
     let secret: [u8; 32] = sut.key.to_bytes();
     let public = sut.key.verifying_key().to_bytes();
     for (i, op) in ops.iter().enumerate() {
@@ -232,6 +235,8 @@ fn replica_case(ctx: &mut Ctx, r: &mut Rng) -> Result<(), Fail> {
         get_cap: 64,
         cmp_mask: CMP_WRITABLE | CMP_HAS,
         steps: 0,
+        plain_reopen_every: 0,
+        reopens: 0,
     };
     check_append_refused(ctx, &mut sut)?;
     let m0 = muts(&sut);
